@@ -138,6 +138,17 @@ CHECKS = {
         "Results are compared by identity or value; NaN-objective results are unconstrained for 'last'; ties may resolve either way.",
         "DESIGN.md §3 C12",
     ),
+    "C11": (
+        "exploration",
+        "Hypothesis; differential oracle (same user-domain configuration evaluated with and without the transforms) + feasibility-equivalence predicate",
+        "Random user-domain configurations (bounds, 0-3 linear constraints of all kinds with arbitrary non-zero rows, non-linear constraints, absolute "
+        "and relative perturbations, all boundary types, injected design samples that may leave the bounds) evaluated with random positive variable "
+        "scales/offsets and objective/constraint scales and again without: the rows handed to the evaluator, the user-domain variables, "
+        "per-realization values, function values and all nine constraint difference/violation arrays must agree, 40 random points per case must be "
+        "feasible in the user domain iff their images are feasible for the transformed bounds/linear constraints, and from(to(x)) = x.",
+        "Linear scalers only; 1e-9 relative tolerance; weighted objective and gradients are not part of the statement and are not compared.",
+        "DESIGN.md §3 C11",
+    ),
 }
 
 NOT_YET = "check not built yet in this session (planned, see DESIGN.md §3)"
